@@ -441,6 +441,19 @@ func (b *budgetCtx) Err() error {
 	return nil
 }
 
+type eofReader []byte
+
+func (b eofReader) ReadAt(p []byte, off int64) (int, error) {
+	if off < 0 || off > int64(len(b)) {
+		return 0, io.EOF
+	}
+	n := copy(p, b[off:])
+	if n < len(p) || off+int64(n) == int64(len(b)) {
+		return n, io.EOF
+	}
+	return n, nil
+}
+
 type readBudgetExceeded struct{}
 
 type countingReader struct {
@@ -601,6 +614,14 @@ func verify(f Format, c Case, path string, model []pair) (openPhaseErr error, op
 			return fmt.Errorf("harness: %w", err), "", nil, 0, nil, 0
 		}
 		base = bytes.NewReader(b)
+	case "eof":
+		// an io.ReaderAt that reports io.EOF together with a complete read that ends at the end of the
+		// source - explicitly allowed by the io.ReaderAt contract
+		b, err := os.ReadFile(path)
+		if err != nil {
+			return fmt.Errorf("harness: %w", err), "", nil, 0, nil, 0
+		}
+		base = eofReader(b)
 	default:
 		fh, err := os.Open(path)
 		if err != nil {
@@ -946,7 +967,7 @@ func RunCase(f Format, c Case, rec *ev.Recorder, st *stats, dir string) (violate
 // ---------------------------------------------------------------- case lists
 
 var orders = []string{"gen", "sorted", "reversed", "shuffle1", "shuffle2", "shuffle3"}
-var readers = []string{"bytes", "file", "mmap"}
+var readers = []string{"bytes", "file", "mmap", "eof"}
 var metas = []string{"none", "kind", "typical", "pairs255-tiny", "pairs255-max", "empty-kv", "dupkeys", "kind-max"}
 var keygens = []string{"rand", "seqle", "ascii", "mixed", "seqbe", "pffff", "p0000"}
 
